@@ -22,9 +22,12 @@ from ..rigs import tmgr_rig as R
 
 PID = 'C12'
 
-INVARIANTS = ['TypeOK', 'InvForwardOnce', 'InvForwardedIfEligible', 'InvNamed', 'InvOnlyAdded',
+INVARIANTS = ['TypeOK', 'InvRecords', 'InvForwardOnce', 'InvForwardedIfEligible', 'InvNamed', 'InvOnlyAdded',
               'InvWaitHeld', 'InvRRBalanced', 'InvBFEligible', 'InvBFUsedReturns', 'InvUsedIsGhost']
-DEVS = ['DevEarlyNotCleared', 'DevBFRaiseSkipsBatch']
+DEVS = ['DevEarlyNotCleared', 'DevBFRaiseSkipsBatch', 'DevAddForgetsState',
+        'DevContradictionRaises']
+# behaviours of 'the code as it was / is': everything but the regression class
+DEVS_ASIS = ['DevEarlyNotCleared', 'DevBFRaiseSkipsBatch', 'DevContradictionRaises']
 
 T4 = ['t1', 't2', 't3', 't4']
 T3 = T4[:3]
@@ -44,7 +47,12 @@ SCENARIOS = [
     (True,  scen('rr-3t3p', 'RR', T3, P3, {'t1': 'p1'}, {}, {p: 2 for p in P3},
                  addst=(ACT,), notif=('DONE',))),
     (True,  scen('bf-3t2p', 'BF', T3, P2, {'t1': 'p1'}, {'t2': 2}, {'p1': 2, 'p2': 1})),
-    (True,  scen('bf-4t2p', 'BF', T4, P2, {'t1': 'p1'}, {'t2': 2}, {'p1': 2, 'p2': 1})),
+    (False, scen('bf-4t2p', 'BF', T4, P2, {'t1': 'p1'}, {'t2': 2}, {'p1': 2, 'p2': 1})),
+    # pilot documents which are stale or contradict a final state already notified
+    (True,  scen('rr-2t2p-contradict', 'RR', T3[:2], P2, {'t1': 'p1'}, {}, {p: 2 for p in P2},
+                 addst=(ACT, 'FAILED'), notif=('DONE', 'CANCELED'))),
+    (True,  scen('bf-2t2p-stale', 'BF', T3[1:], P2, {}, {}, {'p1': 2, 'p2': 1},
+                 addst=('PMGR_LAUNCHING', ACT, 'CANCELED'), notif=(ACT, 'CANCELED', 'DONE'), maxp=1)),
     (False, scen('rr-4t3p', 'RR', T4, P3, {'t1': 'p1'}, {}, {p: 2 for p in P3},
                  addst=(ACT,), notif=('DONE',))),
     (False, scen('rr-4t2p-2named', 'RR', T4, P2, {'t1': 'p1', 't3': 'p2'}, {}, {p: 2 for p in P2},
@@ -59,13 +67,13 @@ SCENARIOS = [
 # behaviours for the real code: a wider mix, simulation only
 SIM_SCENARIOS = [
     scen('sim-rr', 'RR', T4, P3, {'t1': 'p1', 't4': 'p3'}, {}, {p: 2 for p in P3},
-         addst=('NEW', ACT), notif=(ACT, 'DONE', 'FAILED')),
+         addst=('NEW', ACT, 'FAILED'), notif=(ACT, 'DONE', 'FAILED')),
     scen('sim-bf', 'BF', T4, P3, {'t1': 'p1'}, {'t2': 2}, {'p1': 2, 'p2': 1, 'p3': 2},
-         addst=('NEW', ACT), notif=(PEND, ACT, 'DONE', 'FAILED')),
+         addst=('PMGR_LAUNCHING', ACT, 'CANCELED'), notif=(PEND, ACT, 'DONE', 'FAILED')),
     scen('sim-bf-window', 'BF', T4, P3, {'t3': 'p2'}, {'t4': 2}, {'p1': 3, 'p2': 2, 'p3': 1},
-         lo=PEND, hi=ACT, addst=('NEW', PEND, ACT), notif=(PEND, ACT, 'CANCELED', 'DONE')),
+         lo=PEND, hi=ACT, addst=('NEW', PEND, ACT, 'DONE'), notif=(PEND, ACT, 'CANCELED', 'DONE')),
     scen('sim-bf-nonames', 'BF', T4, P3, {}, {'t1': 2}, {'p1': 2, 'p2': 2, 'p3': 4},
-         addst=(ACT,), notif=(ACT, 'DONE')),
+         addst=('NEW', ACT), notif=(ACT, 'DONE')),
 ]
 
 
@@ -153,6 +161,24 @@ def directed():
         [['submit', ['t2', 't3', 't4']], ['add', [['p2', 'NEW']]], ['pstate', 'p2', ACT],
          ['add', [['p3', ACT]]], ['tstates', ['t2'], 'DONE'], ['tstates', ['t3', 't4'], 'FAILED'],
          ['pstate', 'p2', 'DONE'], ['pstate', 'p2', 'FAILED']],
+        # a removed pilot dies; it is added again with a document which still says ACTIVE
+        [['add', [['p1', ACT]]], ['remove', ['p1']], ['pstate', 'p1', 'CANCELED'],
+         ['add', [['p1', ACT]]], ['submit', ['t3', 't4']]],
+        [['submit', ['t3']], ['add', [['p2', ACT]]], ['tstates', ['t3'], 'DONE'], ['remove', ['p2']],
+         ['pstate', 'p2', 'FAILED'], ['submit', ['t4']], ['add', [['p2', ACT]]]],
+        # the ACTIVE notification overtakes the add message, whose document says LAUNCHING
+        [['pstate', 'p1', ACT], ['add', [['p1', 'PMGR_LAUNCHING']]], ['submit', ['t3', 't4']]],
+        [['submit', ['t3', 't1']], ['pstate', 'p1', ACT], ['add', [['p1', 'NEW']]]],
+        # the document contradicts a final state which was already notified
+        [['pstate', 'p1', 'DONE'], ['submit', ['t1', 't3']], ['add', [['p1', 'FAILED']]],
+         ['submit', ['t4']], ['remove', ['p1']]],
+        [['pstate', 'p2', 'DONE'], ['submit', ['t3']], ['add', [['p1', ACT], ['p2', 'CANCELED']]]],
+        # ... while another pilot serves: a task named to the half added pilot finishes
+        # together with another one; a batch is spread over the added pilots
+        [['add', [['p2', ACT]]], ['pstate', 'p1', 'DONE'], ['add', [['p1', 'FAILED']]],
+         ['submit', ['t1', 't3']], ['tstates', ['t1', 't3'], 'DONE']],
+        [['add', [['p2', ACT]]], ['pstate', 'p1', 'DONE'], ['add', [['p1', 'CANCELED']]],
+         ['submit', ['t3', 't4']]],
         # round robin over a changing pilot list
         [['add', [['p1', ACT], ['p2', ACT], ['p3', ACT]]], ['submit', ['t2', 't3']], ['remove', ['p2']],
          ['submit', ['t4']], ['submit', ['t1']]],
@@ -169,12 +195,17 @@ def directed():
 D14 = 'early-bound task, pilot added again (base.control_cb leaves _early[pid])'
 D15 = 'backfilling: final notification of an early-bound task (update_tasks raises)'
 D15R = 'backfilling: final notification of a task placed before its pilot was re-added (update_tasks raises)'
+CTR  = ('add_pilots document contradicts a final state already notified '
+        '(ValueError from _pilot_state_progress leaves the pilot half added)')
+STALE = 'pilot added with a document older than the state already notified or added'
 OTHER = 'other history'
 
 
 def classify(trace, clause):
     '''history class of a failing trace (for known-findings matching)'''
     evs = trace['events']
+    if any(e['ev'] == 'AddPilots' and e['raised'] == 'ValueError' for e in evs):
+        return CTR
     if clause == 'C12.ForwardOnce':
         cnt, only_add = {}, True
         for e in evs:
@@ -195,7 +226,16 @@ def classify(trace, clause):
                     p = bound.get(t)
                     if p and t not in before['tasks'][p] and t not in before['done'][p]:
                         return D15 if trace['named'][t] != 'none' else D15R
-        return OTHER
+    # a document older than what was known before
+    far = {p: 'none' for p in trace['pilots']}
+    for e in evs:
+        if e['ev'] == 'AddPilots':
+            for p, st in e['add']:
+                if R.pval(st) < R.pval(far[p]):
+                    return STALE
+                far[p] = st if R.pval(st) > R.pval(far[p]) else far[p]
+        elif e['ev'] == 'PilotState' and R.pval(e['s']) > R.pval(far[e['p']]):
+            far[e['p']] = e['s']
     return OTHER
 
 
@@ -277,7 +317,11 @@ def run(chk, tier, seed):
                   ('DevEarlyNotCleared',   'bf-3t2p', 'InvForwardOnce'),
                   ('DevBFRaiseSkipsBatch', 'bf-3t2p', 'InvBFUsedReturns'),
                   ('DevBFRaiseSkipsBatch', 'bf-3t2p', 'InvForwardedIfEligible'),
-                  ('DevBFRaiseSkipsBatch', 'bf-4t2p-nonames', 'InvBFUsedReturns')]
+                  ('DevBFRaiseSkipsBatch', 'bf-4t2p-nonames', 'InvBFUsedReturns'),
+                  ('DevAddForgetsState',   'bf-2t2p-stale', 'InvBFEligible'),
+                  ('DevAddForgetsState',   'bf-2t2p-stale', 'InvForwardedIfEligible'),
+                  ('DevAddForgetsState',   'bf-3t2p', 'InvRecords'),
+                  ('DevContradictionRaises', 'rr-2t2p-contradict', 'InvForwardedIfEligible')]
         for dev, sname, inv in expect:
             res = tlc.run('TmgrSched', 'MC', 'MC.cfg', workers=16, timeout=900,
                           extra_files=mc_files(byname[sname], devs=[dev], invariants=[inv]))
@@ -293,7 +337,7 @@ def run(chk, tier, seed):
     nsim = 25 if quick else 250
     for k, sc in enumerate(SIM_SCENARIOS):
         # quick: alternate between the intended design and the code as it is
-        for devs in ([[], DEVS][k % 2:k % 2 + 1] if quick else [[], DEVS]):
+        for devs in ([[], DEVS_ASIS][k % 2:k % 2 + 1] if quick else [[], DEVS_ASIS]):
             dump = tlc.scratch('rpsim_')
             try:
                 res = tlc.run('TmgrSched', 'MC', 'MC.cfg', workers=1, timeout=600,
@@ -340,8 +384,9 @@ def run(chk, tier, seed):
         '(TaskManager.add_pilots / remove_pilots check this); a removed pilot may be added again',
         'one final notification per forwarded task; only notifications with a full task dict '
         '(final states, $all) carry the pilot id, as Component.advance publishes them',
-        'the pilot document of an add message does not contradict a final state the scheduler '
-        'already recorded (DONE -> FAILED/CANCELED raises in _pilot_state_progress)',
+        'the pilot document of an add message carries any state, older or newer than what the '
+        'notifications said or contradicting it; eligibility is judged on the furthest state '
+        'ever notified or added and on the role as commanded, not on the scheduler\'s records',
         'sandboxes come from the real Session._get_*_sandbox methods on a Session.__new__ object '
         'with the real local.localhost resource config; pilot descriptions name an absolute sandbox']
 
